@@ -1852,6 +1852,33 @@ def run(rep: Report, ctx: Any) -> str:
 
     _document_frame(_OnlyReadFields(rep, "R04.13"), ix, it)
 
+    # ---- R04.14: what is decoded for a document does not depend on what this process generated before ------------------------------
+    # The statement quantifies over documents and configurations, one at a time: which source and schema a documented status gets is
+    # a function of the document and of the configuration of this run (content_type_overrides among it).  Necessary for that: no
+    # function the response parser can reach (call graph from response_from_data / _add_responses; receivers that cannot be resolved
+    # reach every method of that name) writes to an object that outlives the call - a module-level variable (rebinding through
+    # `global`, an item / attribute store, a mutating method), class state through `cls`, an attribute of a function / class / module,
+    # a mutable parameter default.  One kind of such a write can be right: an entry `T[key] = v` / `T.setdefault(key, v)` of a table
+    # whose key names every parameter the function reads - then a later call finds the entry only for the same inputs.  (A functools
+    # cache is keyed on all arguments by construction: a helper that leaves an input out of its parameters can get at it only through
+    # state written elsewhere, which is a write of the first kind.)
+    from .c04_state import key_covers_inputs, process_writes, reached
+
+    rep.rule("R04.14", "no function reachable from response_from_data / _add_responses (call graph, unresolved receivers by method name) "
+                       "writes to an object that outlives the call (module-level variable, class state, function / module attribute, "
+                       "mutable parameter default), except an entry T[key] = v whose key names every parameter the function reads: the "
+                       "source and schema chosen for a status depend on the document and this run's configuration only")
+    reach = reached(ix, [rfd, ar])
+    rep.floor("functions_reached_by_response_parser", len(reach), 10)
+    for g in sorted(reach, key=lambda x: x.qual):
+        for n_w, obj, key in process_writes(g):
+            missing = [p for p in key_covers_inputs(g, key) if p != re.split(r"[.\[(]", obj, 1)[0]] if key is not None else None   # (the table itself is no input)
+            rep.check(missing == [], "R04.14", f"{short(g)}::process-state[{obj}]",
+                      f"{short(g)} keeps state in `{obj}`, which outlives the call" + (f", under a key that leaves out the input(s) {missing}" if missing else "")
+                      + ": a later generation in the same process (another configuration, another document) is answered from the earlier one",
+                      where(g, n_w), lhs=norm(n_w)[:200], rhs="no process-wide state, or an entry keyed on every input")
+    rep.ok("R04.14", "response-parser::no-process-state", f"{len(reach)} functions", "functions reached by the response parser")
+
     # ---- R04.9: the module of an operation is rendered from that operation (shared with C16) ---------------------------------------
     # Everything above is about what the endpoint template writes for the endpoint it is given; the statuses an operation documents are
     # decoded by its module only if the text written to the operation's path is, on every path of the builder, the template rendered
